@@ -178,6 +178,13 @@ url_pattern_component<regex_provider>::compile(
     }
   }
 
+#ifdef ADA_URL_ADA_VERIF
+  if (url_pattern_verif_force_regexp) {
+    component_type = url_pattern_component_type::REGEXP;
+    exact_match_value.clear();
+  }
+#endif  // ADA_URL_ADA_VERIF
+
   // For simple patterns, skip regex generation and compilation entirely
   if (component_type != url_pattern_component_type::REGEXP) {
     auto pattern_string =
